@@ -1,13 +1,24 @@
+import e2e_e2etraffic
+
 SPEC = {
     "corr": [{"kind": "ipfix", "quick": 12000, "thorough": 1200000},
              {"kind": "nf9", "quick": 12000, "thorough": 1200000},
              {"kind": "nf5", "quick": 5000, "thorough": 400000},
              {"kind": "sflow", "quick": 15000, "thorough": 1200000}],
+    # the second observation point of the property (RSS / liveness of the vflow process), on the unmodified binary
+    "extra": [e2e_e2etraffic.traffic_cycles],
     "rule": "as C01; every decode call runs under a 1 s watchdog (a hang = the model's `fuel`), its runtime.MemStats.TotalAlloc delta "
             "is compared with a bound linear in the datagram (16 KiB + 200 B per octet; IPFIX/v9: the product with the number of zero-length "
             "field specifiers of a cached template is tolerated only as the recorded finding K4 `fail:amplification`), and len(DataSets)/len(Samples) "
             "with the datagram length; corpus: the zero-length / zero-field template and reserved-flowset witnesses of F2; "
-            "non-trivial = decoded; distinct = case line",
+            "non-trivial = decoded; distinct = case line. "
+            "e2e-traffic (the REAL binary, DESIGN.md §6 *End-to-end*): 6 (quick) / 200 (thorough) cycles, each starting the unmodified vflow binary (four listeners, producer rawSocket -> a TCP sink of the harness, fresh cache files, 1..64 workers, read buffers of 1500 / 9000 octets) and sending it about 300 / 2000 datagrams of the ipfix, nf9, nf5 and sflow generators from per-session loopback exporter addresses, in phases separated by the collector's own counters (no dependence on worker order, K5), paced by its UDPCount (no socket overflow); expectation per datagram from the real decoders in-process (`corr e2eref`); C02 demands: VmHWM of the process after the stream <= 200 MB + (4 x 1000 queue slots + 2 x workers) x read-buffer "
+            "size (unchanged tree: <= 27 MB over 150 cycles); the bytes the collector itself reports as allocated (/sys MemTotalAlloc delta) <= "
+            "8 MiB + 8 KiB per datagram + 100 B per octet + 8 KiB per statistics request of the harness + 64 KiB/s (unchanged tree: <= 16 % "
+            "of that); an excess is the recorded finding K4 `fail:amplification` only as far as the decoded fields that consume no octet "
+            "(counted by the reference) explain it at 1 KiB each, else `fail:rss` / `fail:alloc`; no standstill of the counters for 10 s "
+            "with datagrams queued (`fail:stall`); the probes after the stream are decoded and published within 5 s (`fail:latency`); "
+            "every such time / memory verdict must show again when the cycle is run alone, twice",
     "assumptions": ["seconds and bytes are measured, not proved: the theorems bound loop iterations (fuel) and allocation *units* of the model",
                     "the make/new/append sites of the decoder packages are the reviewed inventory lean/Vflow/Spec/Sites.lean (re-extracted on every run)"],
 }
@@ -21,12 +32,15 @@ META = {
             "datagram (ipfix/v9_fields_linear), Z = 0: fields <= octets (ipfix/v9_fields_le_octets); the product octets x largest template "
             "(ipfix/v9_alloc_bound) is kept as the weaker statement; sFlow model allocation <= 64*len+1525 (alloc_linear); over "
             "regenerated facts the allocation-site inventory is the reviewed one. Correspondence: watchdog, TotalAlloc delta and record "
-            "counts of every real decode call on malformed-heavy streams + the F2 witnesses.",
+            "counts of every real decode call on malformed-heavy streams + the F2 witnesses. End to end: resident memory (VmHWM) and "
+            "allocation volume (/sys MemTotalAlloc) of the unmodified binary over streams of the same generators, against bounds that "
+            "depend on the configuration and the octets sent; no stall; probes answered in time.",
     "ref": "DESIGN.md §6 C02",
     "note": "Partial: wall-clock and byte counts are measured by the harness (sampled), the proofs bound steps and allocation units of "
             "the model (units = decoded fields, not the octets of their values); IPFIX/v9: linear in the octets received except for the term "
             "records x zero-length specifiers, which is the recorded finding K4 (a length-0 specifier is decoded without consuming an octet) "
             "and is stated, not hidden: the theorems and the TotalAlloc oracle have the same shape (linear, K4 named). "
-            "Trusted: Lean kernel, factgen, harness.",
-    "technique": "Lean 4 fuel-sufficiency and size-bound proofs on executable decoder models + regenerated allocation-site inventory + watchdog/TotalAlloc-instrumented correspondence",
+            "Trusted: Lean kernel, factgen, harness (incl. the end-to-end harness "
+            "e2e_e2etraffic.py; its memory bounds are measured constants with a margin, not theorems).",
+    "technique": "Lean 4 fuel-sufficiency and size-bound proofs on executable decoder models + regenerated allocation-site inventory + watchdog/TotalAlloc-instrumented correspondence + end-to-end traffic cycles of the built binary (VmHWM, MemTotalAlloc)",
 }
